@@ -390,12 +390,14 @@ theorem C18_session_save_fails (s : State) (k f : String) (dir : Option PPath) (
     step s (.save k f dir) = (s, .fail e) :=
   step_save_error hk he
 
-/-- the content of a file changes only through a successful save to that very file, and then it is
-    exactly the document of that save (one step) -/
+/-- the content of a cell (a file, an in-memory document) changes only through a successful save to that
+    very cell, and then it is exactly the document of that save — or through a copy into it (a document
+    written out, a file parsed), and then it is the source's document (one step) -/
 theorem C18_session_file_changes (s : State) (st : Step) (f : String) :
     get (step s st).1.files f = get s.files f ∨
-    ∃ k dir c d, st = .save k f dir ∧ get s.objs k = some c ∧ save c dir = .ok d ∧
-      get (step s st).1.files f = some d :=
+    (∃ k dir c d, st = .save k f dir ∧ get s.objs k = some c ∧ save c dir = .ok d ∧
+      get (step s st).1.files f = some d) ∨
+    (∃ src d, st = .copy src f ∧ get s.files src = some d ∧ get (step s st).1.files f = some d) :=
   file_changes s st f
 
 /-- … and over any number of steps none of which saves to `f` (saves to other files, loads of any file,
@@ -457,6 +459,29 @@ theorem C18_session_failed_save_keeps_file (s : State) (k k' f into : String) (A
   have hk2 : get ({ s with files := put s.files f d } : State).objs k' = some c₂ := hk'
   have hf : get ({ s with files := put s.files f d } : State).files f = some d := get_put_same _ _ _
   simp only [run, runS, step_save_ok hk hd, step_save_error hk2 hfail, step_load_ok hf hl]
+
+/-- **One document, several conversions** (seeded change C18-7).  `to_aeof(obj, A)` gives an in-memory
+    document (the cell `D`); `to_soundevent(D, B)`, then `to_soundevent(D, C)` on the *same* document object,
+    then the document written out: the second conversion relocates from `A` to `C` (it does not see `B`), and
+    what is written out is the document of the save — conversions read the document, they do not change it. -/
+theorem C18_session_document_reused (s : State) (k D x y out : String) (A B C : PPath) (c : Collection)
+    (hk : get s.objs k = some c) (hwf : WF c) (hin : ∀ r ∈ recsOf c.trav, inside r.path A) :
+    ∃ d cB cC, save c (some A) = .ok d ∧
+      run s [.save k D (some A), .load D (some B) x, .load D (some C) y, .copy D out] =
+        [.stored (storedOf d), .recs (recPaths cB), .recs (recPaths cC), .stored (storedOf d)] ∧
+      recsOf cB.trav = (recsOf c.trav).map (Recording.mapPath (relocated (some A) (some B))) ∧
+      recsOf cC.trav = (recsOf c.trav).map (Recording.mapPath (relocated (some A) (some C))) := by
+  obtain ⟨d, cB, hd, hlB, hrB, _⟩ := C18_relocate_collection c A B hwf hin
+  obtain ⟨d', cC, hd', hlC, hrC, _⟩ := C18_relocate_collection c A C hwf hin
+  have hdd : d' = d := by rw [hd] at hd'; exact (Except.ok.inj hd').symm
+  subst hdd
+  refine ⟨d', cB, cC, hd, ?_, hrB, hrC⟩
+  have h1 : get ({ s with files := put s.files D d' } : State).files D = some d' := get_put_same _ _ _
+  have h2 : get ({ objs := put s.objs x cB, files := put s.files D d' } : State).files D = some d' :=
+    get_put_same _ _ _
+  have h3 : get ({ objs := put (put s.objs x cB) y cC, files := put s.files D d' } : State).files D = some d' :=
+    get_put_same _ _ _
+  simp only [run, runS, step_save_ok hk hd, step_load_ok h1 hlB, step_load_ok h2 hlC, step_copy_ok h3]
 
 /-- one save as the file system sees it: the collection's content, the directory, the target -/
 abbrev SaveCall := Collection × Option PPath × String
